@@ -60,6 +60,10 @@ def gen(rng, tier):
         for e in {0, 1, 2, 3, rng.randrange(emax), rng.randrange(emax), 1 << rng.randrange(1, max(2, emax.bit_length())),
                   (1 << rng.randrange(1, max(2, emax.bit_length()))) - 1}:
             emit(signed(rng, x), e)
+    # squarings that cross the Karatsuba / Toom-3 thresholds of the digit-level `&base * &base` (mulRef) and
+    # unbalanced `acc *= &base` (half-Karatsuba): base^(2^k) and base^(2^k + small)
+    for (la, e) in [(3, 64), (5, 48), (9, 33), (5, 128), (7, 96)] + ([(40, 17), (90, 9), (20, 40)] if thorough else []):
+        emit(signed(rng, big(rng, la)), e)
     # powers of two as bases (long zero runs), all-ones bases
     for la in [1, 2, 3]:
         for x in [1 << (64 * la - 1), 1 << (64 * la), val([MAX] * la)]:
